@@ -391,6 +391,28 @@ func (c *Ctx) totalOps(owner string, body *ast.BlockStmt, arity int, argsObj typ
 			}
 			c.R.Bad(owner, desc, n.Pos(), "index can be out of range: no dominating guard establishes %s on the (integer) index expression itself", strings.Join(missing, " and "))
 		case *ast.SliceExpr:
+			// x[k:] with a constant k is in range iff len(x) >= k: k == 0 always, k == 1 after a non-empty guard
+			if n.High == nil && !n.Slice3 {
+				k := int64(0)
+				okK := n.Low == nil
+				if n.Low != nil {
+					if v := c.constOf(n.Low); v != nil {
+						k, okK = constant.Int64Val(constant.ToInt(v))
+					}
+				}
+				if okK {
+					facts := c.guardFacts(body, g, n, defs)
+					lenX := "(CallExpr Fun:len Args:[" + c.sxInl(n.X, nil) + "])"
+					switch {
+					case k == 0:
+						c.R.OK(owner, "slice "+src(n), n.Pos(), "x[0:] is the whole slice")
+						return true
+					case k == 1 && (facts[lenX+"!=0"] || facts[lenX+">0"] || facts[lenX+">=1"]):
+						c.R.OK(owner, "slice "+src(n), n.Pos(), "x[1:] after `if len(x) == 0 { return }`")
+						return true
+					}
+				}
+			}
 			c.R.Unk(owner, "slice "+src(n), n.Pos(), "slice expression in a total function: bounds not analysed")
 		case *ast.BinaryExpr:
 			if n.Op == token.QUO || n.Op == token.REM {
@@ -601,6 +623,9 @@ func ruleSig1(c *Ctx) {
 					return true
 				})
 				if over != nil {
+					if sl, ok := unparen(over).(*ast.SliceExpr); ok {
+						over = sl.X // a sub-slice has the element type of the slice
+					}
 					t := typeOf(over, d+1)
 					if strings.HasPrefix(t, "payload:list(") {
 						return strings.TrimSuffix(strings.TrimPrefix(t, "payload:list("), ")")
